@@ -224,6 +224,18 @@ def case_hash(payload):
     return hashlib.sha1(sexp.dumps(payload).encode()).hexdigest()[:12]
 
 
+def to_model(mod, payload):
+    """what is sent to the model driver for a case: the payload itself, or `mod.model_payload(payload)` when the
+    model needs observations of the real run as an input (e.g. the answers of a component owned by another property)"""
+    f = getattr(mod, "model_payload", None)
+    if f is None:
+        return payload
+    try:
+        return f(payload)
+    except Exception as e:
+        return ["model-payload-error", type(e).__name__]
+
+
 def safe_impl(mod, payload):
     try:
         return mod.impl(payload)
@@ -283,7 +295,7 @@ def do_replay(mod, path):
     log("case:  ", data["case"])
     log("impl:  ", sexp.dumps(ans))
     try:
-        m = run_driver([sexp.dumps([mod.ID, "0", payload])])
+        m = run_driver([sexp.dumps([mod.ID, "0", to_model(mod, payload)])])
         log("model: ", sexp.dumps(m.get("0")))
     except Exception as e:
         log("model:  (driver unavailable)", e)
@@ -357,7 +369,7 @@ def main():
     model_ans = {}
     if info.get("driver_built"):
         try:
-            model_ans = run_driver([sexp.dumps([mod.ID, str(i), p]) for i, p in enumerate(cases)])
+            model_ans = run_driver([sexp.dumps([mod.ID, str(i), to_model(mod, p)]) for i, p in enumerate(cases)])
         except Exception as e:
             broken.append({"kind": "correspondence", "name": f"corr:{pid}/driver", "detail": repr(e)})
     compare = getattr(mod, "compare", lambda m, a: m == a)
